@@ -457,3 +457,10 @@ Definition c07_int_one (F : dfmt) (n : Z) : list Z :=
 Fixpoint c07_int_sweep_from (F : dfmt) (k : nat) (lo : Z) : list Z :=
   match k with O => [] | S k' => c07_int_one F lo ++ c07_int_sweep_from F k' (lo + 1) end.
 Definition c07_int_sweep (F : dfmt) (lo n : Z) : list Z := c07_int_sweep_from F (Z.to_nat n) lo.
+
+(* the console output of `PRINT x : WRITE x : PRINT STR$(x)` (formatter: to_repr + blank; WRITE: no blank) *)
+Definition c07_e2e (v : value) : list Z :=
+  match v_to_repr v true false, v_to_repr v false false with
+  | Ok p, Ok w => p ++ [32; 13; 10] ++ w ++ [13; 10] ++ p ++ [13; 10]
+  | _, _ => []
+  end.
